@@ -175,18 +175,7 @@ def run(ctx):
                 r.violate(key, f"{name}: an Err result ({f.rec['locals'][src][:70]}) can reach the return without save_last_error: the C caller gets an error code with no message, or no error at all", f.loc())
     if n < 15:
         raise EngineError("R17.4: fewer than 15 examined Results in extern functions")
-    # the recorded error is always the one of the call that just failed: save_last_error overwrites unconditionally
-    inner = [g for g in capi.fns if g.key == "errors::save_last_error::{closure#0}::{closure#0}"]
-    r.inst("save_last_error|overwrites")
-    okw = False
-    if inner:
-        g = inner[0]
-        calls_ = [callee_key(t) for bi, t in g.calls()]
-        ws_ = [st for b in g.blocks for st in b["stmts"] if st["k"] == "assign" and st["p"]["proj"] and "deref_mut" in g.describe_place(st["p"]) and st["rv"]["k"] == "use" and g.deep(st["rv"]["o"]).endswith("err")]
-        sw_ = [b for b in g.blocks if b["term"]["k"] == "switch" and not b.get("cleanup")]
-        okw = bool(ws_) and not any(re.search(r"get_or_insert|or_insert|is_none|is_some|replace$|take$", c) for c in calls_) and not sw_
-    if not okw:
-        r.violate("save_last_error|overwrites", "save_last_error no longer stores the new error unconditionally (`*v = err`): with an earlier, uncollected error pending, lol_html_take_last_error() would return the stale message instead of the error of the call that just failed", inner[0].loc() if inner else None)
+    clause_last_error_overwritten(r, capi)
     # a Result that is never examined at all (`let _ = element.set_tag_name(..)`) loses the error too
     ACCEPTED_DROPS = {("errors::save_last_error", "LocalKey::try_with"): "recording the error must not itself fail or panic during thread teardown (R18.5)"}
     for f in capi.fns:
@@ -360,6 +349,9 @@ def run(ctx):
     # ------------------------------------------------------------------ R17.11 (generic, scoped to this property's anchors)
     sm.rule_named_plumbing(ctx, capi, "C17", "R17.11", floor=10)
 
+    # ------------------------------------------------------------------ R17.12
+    rule_namespace_uris(ctx)
+
     ctx.not_decided += ["byte-for-byte equality of C-driven and Rust-driven runs (a run-time relation)", "allocator hygiene over all create/use/free histories (sanitizer territory)"]
     return ("Wrapper discipline of the C API: %d header prototypes compared with the exported extern \"C\" signatures (arity and type class) and the repr(C) struct "
             "layouts, namesake routing of %d accessor/mutator wrappers, catch_panic containment, Err-edge to save_last_error reachability, and ownership pairing." % (len(hdr["funcs"]), len(ext)))
@@ -430,3 +422,53 @@ def rule_named_plumbing(ctx, capi, rid="R17.10"):
         r.violate("build_inner|esi-constant", f"the constructors pass {consts} for enable_esi_tags, expected {want_c}", "c-api/src/rewriter.rs")
     r.count("named_arguments_in_place", n_sites)
 
+
+NAMESPACE_URIS = {"Html": "http://www.w3.org/1999/xhtml", "Svg": "http://www.w3.org/2000/svg", "MathML": "http://www.w3.org/1998/Math/MathML"}  # https://infra.spec.whatwg.org/#namespaces
+
+
+def rule_namespace_uris(ctx, rid="R17.12"):
+    """sibling agreement: the C-only twin of Namespace::uri returns the same strings"""
+    from ..smimpl import index
+    from ..astlib import walk
+    idx = index()
+    r = ctx.rule(rid, "the namespace URI a C handler reads is the one the Rust API reports: Namespace::uri_c_str (used only by lol_html_element_namespace_uri_get) and Namespace::uri are total matches over the same variants with equal strings, and both equal the Infra standard's URIs", "E-AST sibling tables", floor=6)
+    tabs = {}
+    for nm in ("uri", "uri_c_str"):
+        f = idx.one(nm, owner="Namespace")
+        tab = {}
+        for n in walk(f.node["body"]):
+            if n.get("k") == "Match":
+                for arm in n["arms"]:
+                    pat = arm["pat"]
+                    name = (pat.get("name") or pat.get("path") or pat.get("s") or "").split("::")[-1]
+                    lit = arm["body"].get("lit") if arm["body"].get("k") == "Lit" else None
+                    if lit is None:
+                        raise EngineError(f"{rid}: Namespace::{nm} arm {name} is not a literal")
+                    v = lit["v"]
+                    if lit["t"] == "cstr":
+                        v = v[2:-1] if v.startswith('c"') else v
+                    tab[name] = v
+        tabs[nm] = tab
+    for var, want in NAMESPACE_URIS.items():
+        for nm in ("uri", "uri_c_str"):
+            key = f"Namespace::{nm}|{var}"
+            r.inst(key, sample={"value": tabs[nm].get(var)})
+            if tabs[nm].get(var) != want:
+                r.violate(key, f"Namespace::{nm}() returns {tabs[nm].get(var)!r} for {var}, the standard's (and the sibling's) URI is {want!r}: C and Rust handlers see different namespaces", "src/html/namespace.rs")
+    if set(tabs["uri"]) != set(tabs["uri_c_str"]) or set(tabs["uri"]) != set(NAMESPACE_URIS):
+        r.violate("variants", f"the two tables cover {sorted(tabs['uri'])} / {sorted(tabs['uri_c_str'])}", "src/html/namespace.rs")
+
+
+def clause_last_error_overwritten(r, capi):
+    # the recorded error is always the one of the call that just failed: save_last_error overwrites unconditionally
+    inner = [g for g in capi.fns if g.key == "errors::save_last_error::{closure#0}::{closure#0}"]
+    r.inst("save_last_error|overwrites")
+    okw = False
+    if inner:
+        g = inner[0]
+        calls_ = [callee_key(t) for bi, t in g.calls()]
+        ws_ = [st for b in g.blocks for st in b["stmts"] if st["k"] == "assign" and st["p"]["proj"] and "deref_mut" in g.describe_place(st["p"]) and st["rv"]["k"] == "use" and g.deep(st["rv"]["o"]).endswith("err")]
+        sw_ = [b for b in g.blocks if b["term"]["k"] == "switch" and not b.get("cleanup")]
+        okw = bool(ws_) and not any(re.search(r"get_or_insert|or_insert|is_none|is_some|replace$|take$", c) for c in calls_) and not sw_
+    if not okw:
+        r.violate("save_last_error|overwrites", "save_last_error no longer stores the new error unconditionally (`*v = err`): with an earlier, uncollected error pending, lol_html_take_last_error() would return the stale message instead of the error of the call that just failed", inner[0].loc() if inner else None)
